@@ -292,10 +292,35 @@ def check_program(prog, driver, target="sql.sqlite", k=2, schema=None, timeout_m
         if bad and compare_names:
             return Outcome("violation", kind="names", prql=text, sql=sql_text, data=None,
                            detail=f"names: {bad}; SQLite returns columns {got}, final frame is {exp}")
+    drop = None
     if len(ref.cols) != len(sq.cols):
-        return structural(prog, text, sql_text, schema,
-                          f"arity: final frame has {len(ref.cols)} columns {ref.cols}, SQL returns {len(sq.cols)} {sq.cols}",
-                          expect_cols=[c.name for c in ref.cols])
+        arity = structural(prog, text, sql_text, schema,
+                           f"arity: final frame has {len(ref.cols)} columns {ref.cols}, SQL returns {len(sq.cols)} {sq.cols}",
+                           expect_cols=[c.name for c in ref.cols])
+        # A generated column that leaks through `SELECT *` is a known class of defect. So that such a program is not blind to
+        # everything else, the values are still compared with the generated column(s) set aside: a value difference is
+        # reported as such, otherwise the arity difference is.
+        helper = [i for i, c in enumerate(sq.cols) if c.name and HELPER_COL.match(c.name)]
+        if not (executable and arity.status == "violation" and getattr(arity, "kind", "") == "arity" and helper
+                and len(sq.cols) - len(helper) == len(ref.cols) and not any(c.name and HELPER_COL.match(c.name) for c in ref.cols)):
+            return arity
+        keep = [i for i in range(len(sq.cols)) if i not in helper]
+        sq = S.SRel([sq.cols[i] for i in keep], [Row(r_.present, [r_.cells[i] for i in keep]) for r_ in sq.rows], sq.order)
+        drop = helper
+        compare_names = False
+    o = _compare_values(prog, text, sql_text, schema, db, pre, ref, sq, r, sem, dialect, target, executable, timeout_ms, compare_names, extra_pre, drop)
+    if drop is not None:
+        if o.status == "violation" and getattr(o, "kind", "") == "result":
+            o.detail = f"(generated column(s) leaking through * set aside: positions {drop}) " + o.detail
+            return o
+        return arity
+    return o
+
+
+HELPER_COL = re.compile(r"^_expr_\d+$")
+
+
+def _compare_values(prog, text, sql_text, schema, db, pre, ref, sq, r, sem, dialect, target, executable, timeout_ms, compare_names, extra_pre, drop):
     if compare_names:
         bad = [(i, c.name, s.name) for i, (c, s) in enumerate(zip(ref.cols, sq.cols)) if c.name and c.name != s.name]
         if bad:
@@ -342,10 +367,16 @@ def check_program(prog, driver, target="sql.sqlite", k=2, schema=None, timeout_m
     if dialect == "generic" and sem.notes:
         # the reading that produced the model is not SQLite's: cannot be replayed, hence not reported
         return Outcome("unreplayable", prql=text, sql=sql_text, data=data, detail="; ".join(sorted(sem.notes)), solver_s=dt)
-    return replay(prog, text, sql_text, schema, data, r["ast"], ordered, solver_s=dt)
+    return replay(prog, text, sql_text, schema, data, r["ast"], ordered, solver_s=dt, drop=drop)
 
 
-def replay(prog, text, sql_text, schema, data, ast=None, ordered=None, solver_s=0.0):
+def _drop_cols(rows, drop):
+    if not drop:
+        return rows
+    return [tuple(v for i, v in enumerate(r_) if i not in drop) for r_ in rows]
+
+
+def replay(prog, text, sql_text, schema, data, ast=None, ordered=None, solver_s=0.0, drop=None):
     """evaluate the reference on the concrete instance, run the SQL on real SQLite, compare"""
     uses_uf = False
     cdb = ConcDB(schema, data)
@@ -359,6 +390,7 @@ def replay(prog, text, sql_text, schema, data, ast=None, ordered=None, solver_s=
     is_ordered = ref.order is not None
     try:
         names, act = run_sqlite(schema, data, sql_text)
+        act = _drop_cols(act, drop)
     except sqlite3.Error as e:
         return Outcome("violation", kind="sqlite_error", prql=text, sql=sql_text, data=data, detail=f"SQLite rejects the emitted SQL: {e}",
                        expected=[v for _, v in exp], solver_s=solver_s)
@@ -366,6 +398,9 @@ def replay(prog, text, sql_text, schema, data, ast=None, ordered=None, solver_s=
         # encoder self-check on this instance
         try:
             sq = S.SqlSem(cdb, "sqlite").run(ast)
+            if drop:
+                keep = [i for i in range(len(sq.cols)) if i not in drop]
+                sq = S.SRel([sq.cols[i] for i in keep], [Row(r_.present, [r_.cells[i] for i in keep]) for r_ in sq.rows], sq.order)
             enc = ground_result(sq.cols, sq.rows, sq.order)
             if not rows_match(enc, act, sq.order is not None):
                 return Outcome("mismatch", prql=text, sql=sql_text, data=data,
